@@ -196,24 +196,7 @@ func c10Structured(r *fw.Rec, kind string, blk, nblk int) {
 			for _, m := range mantissas(64, rng, 2) {
 				for _, s := range []uint64{0, 1} {
 					se := s<<15 | uint64(e)
-					cls := "normal"
-					j := m >> 63
-					switch {
-					case e == 0 && m == 0:
-						cls = "zero"
-					case e == 0 && j == 0:
-						cls = "subnormal"
-					case e == 0:
-						cls = "pseudo-denormal"
-					case e == 0x7FFF && m == 1<<63:
-						cls = "inf"
-					case e == 0x7FFF && m == 3<<62:
-						cls = "nan-canonical"
-					case e == 0x7FFF:
-						cls = "nan-payload"
-					case j == 0:
-						cls = "unnormal"
-					}
+					cls := x87Class(e, m)
 					add(fmt.Sprintf("0xK%04X%016X", se, m), cls)
 				}
 			}
@@ -264,7 +247,73 @@ func c10Structured(r *fw.Rec, kind string, blk, nblk int) {
 			add(fmt.Sprintf("0xM%016X%016X", rng.Uint64(), rng.Uint64()), "prng")
 		}
 	}
+	// spellings with fewer digits than the full width of a kind-prefixed form
+	// (LLVM accepts them: 0xK takes up to 4 digits of sign/exponent first, 0xL and
+	// 0xM take the first 16 digits as their first word once there are 16)
+	if pfx, full := map[string]string{"half": "0xH", "x86_fp80": "0xK", "fp128": "0xL", "ppc_fp128": "0xM"}[kind], map[string]int{"half": 4, "x86_fp80": 20, "fp128": 32, "ppc_fp128": 32}[kind]; pfx != "" && blk == 0 {
+		for n := 1; n < full; n++ {
+			for k := 0; k < 3; k++ {
+				var sb strings.Builder
+				for i := 0; i < n; i++ {
+					switch k {
+					case 0:
+						sb.WriteByte("0123456789ABCDEF"[rng.Intn(16)])
+					case 1:
+						sb.WriteByte('F')
+					default:
+						sb.WriteByte("01"[btoi(i == n-1)])
+					}
+				}
+				cls := fmt.Sprintf("short-hex:%d-digits", n)
+				if kind == "x86_fp80" {
+					// the class of the pattern the digits denote under LLVM's rule (first 4
+					// digits sign/exponent, the rest the significand): mostly unnormals
+					d := sb.String()
+					seS, mS := d, ""
+					if len(d) > 4 {
+						seS, mS = d[:4], d[4:]
+					}
+					se, _ := strconv.ParseUint(seS, 16, 16)
+					var m uint64
+					if mS != "" {
+						m, _ = strconv.ParseUint(mS, 16, 64)
+					}
+					cls = x87Class(uint(se&0x7FFF), m)
+				}
+				add(pfx+sb.String(), cls)
+			}
+		}
+	}
 	c10Judge(r, fmt.Sprintf("%s-struct-%d", kind, blk), lits)
+}
+
+// x87Class classifies an x86_fp80 pattern by exponent and significand.
+func x87Class(e uint, m uint64) string {
+	j := m >> 63
+	switch {
+	case e == 0 && m == 0:
+		return "zero"
+	case e == 0 && j == 0:
+		return "subnormal"
+	case e == 0:
+		return "pseudo-denormal"
+	case e == 0x7FFF && m == 1<<63:
+		return "inf"
+	case e == 0x7FFF && m == 3<<62:
+		return "nan-canonical"
+	case e == 0x7FFF:
+		return "nan-payload"
+	case j == 0:
+		return "unnormal"
+	}
+	return "normal"
+}
+
+func btoi(b bool) int {
+	if b {
+		return 1
+	}
+	return 0
 }
 
 func expSweep(bits uint, blk, nblk int, thorough bool) []uint {
